@@ -72,6 +72,16 @@ pub fn profile() -> (u64, u64, u64, u64) {
     (PROF[0].load(std::sync::atomic::Ordering::Relaxed) / n, PROF[1].load(std::sync::atomic::Ordering::Relaxed) / n, PROF[2].load(std::sync::atomic::Ordering::Relaxed) / n, n)
 }
 
+/// CPU seconds (user + system) used by this process so far, from /proc/self/stat (0 when unavailable).
+pub fn process_cpu_s() -> f64 {
+    let Ok(txt) = std::fs::read_to_string("/proc/self/stat") else { return 0.0 };
+    let Some(rest) = txt.rfind(')').map(|i| &txt[i + 1..]) else { return 0.0 };
+    let f: Vec<&str> = rest.split_whitespace().collect();
+    // after the command name: state is field 0, utime is field 11, stime field 12 (clock ticks, 100 Hz on Linux)
+    let t = |i: usize| f.get(i).and_then(|x| x.parse::<f64>().ok()).unwrap_or(0.0);
+    (t(11) + t(12)) / 100.0
+}
+
 thread_local! {
     static SIM: RefCell<Option<(usize, PSim)>> = RefCell::new(None);
 }
